@@ -1,6 +1,6 @@
 """C04 - tokenisation is longest-match over all terms with first-listed priority."""
 import os
-import families, report, vlib, emit, lexref, common_parse as cp
+import families, report, vlib, emit, lexref, kernel, buf_kernel, common_parse as cp
 
 TAB_CPP = '''#include "hv.h"
 using namespace ctpg; using namespace ctpg::buffers; using namespace ctpg::ftors;
@@ -82,6 +82,8 @@ def run(tier, seed):
                               ['reference lexer: union of the per-term reference automata, longest match, lowest term index wins ties, documented whitespace sets',
                                'harness grammar S -> S K | K, K -> t_i: every token sequence is syntactically valid, so the functor log (term, line, column, first byte, length) is the token stream'],
                               ws=ws, nl=nl, validate_cf=False, wit_every=2, finish=False, R=R, defer=cases, tag='b')
+    # the lexeme handed to a term functor is exactly the slice of the caller's buffer: get_view kernel over the encodable buffer kinds
+    kernel.run_kernels(R, buf_kernel.kernels(vlib.workdir('C04', fresh=False)))
     # table level: the generated lexer automaton of EVERY term set of the family against the reference lexer automaton (inputs of any length)
     wd = vlib.workdir('C04', fresh=False)
     # a term set with a recorded finding (known_findings.json) has no homomorphism at all: the exact-length queries check it outside the recorded inputs instead
